@@ -80,6 +80,7 @@ func c01Check(s *sched.Sched, r *vProdRun) {
 			h2 = vNewHandler(&vStore{Store: r.Inner, NoPoints: true}, s3b)
 			defer h2.coordinator.Stop()
 		}
+		vCalm()
 		fr, err := vFetchOne(h2, "t", 0, snt.Res.Base, 1<<20)
 		ok := false
 		if err == nil && fr.Code == 0 {
